@@ -1,6 +1,161 @@
 package main
 
-import "ottoverif/h"
+import (
+	"ottoverif/cmd/c03/astx"
+	"ottoverif/h"
+)
 
-func genEarly(c *h.Ctx)           {}
-func implEarly(f []string) string { return "bad-op" }
+type earlyT struct {
+	src, expect, region, ref string
+}
+
+// ES5 parse-time errors and their accepted neighbours.  `region` names the deviation of otto for the template.
+var earlyTable = []earlyT{
+	// 12.7-12.8 break / continue
+	{"break;", "reject", "-", "12.8: break outside IterationStatement/SwitchStatement"},
+	{"continue;", "reject", "-", "12.7"},
+	{"while(1){break;}", "accept", "-", "12.8"},
+	{"while(1){continue;}", "accept", "-", "12.7"},
+	{"switch(1){case 1: break;}", "accept", "-", "12.8"},
+	{"switch(1){case 1: continue;}", "reject", "-", "12.7: continue needs an IterationStatement"},
+	{"a: { break a; }", "accept", "-", "12.8"},
+	{"a: { break b; }", "reject", "-", "12.8: label not in the label set"},
+	{"a: while(1){ continue a; }", "accept", "-", "12.7"},
+	{"a: { while(1){ continue a; } }", "reject", "continue_non_iteration_label", "12.7: the label must belong to an enclosing IterationStatement"},
+	{"a: while(1){ (function(){ break a; }); }", "reject", "-", "12.8: label sets do not cross function boundaries"},
+	{"while(1){ (function(){ break; }); }", "reject", "-", "12.8"},
+	{"while(1){ (function(){ continue; }); }", "reject", "-", "12.7"},
+	{"a: a: ;", "reject", "-", "12.12: duplicate label"},
+	{"a: b: a: ;", "reject", "-", "12.12"},
+	{"a: (function(){ a: ; });", "accept", "-", "12.12: nested function starts a new label set"},
+	{"a: ; a: ;", "accept", "-", "12.12"},
+	{"(a): 1;", "reject", "parenthesised_label", "12.12: LabelledStatement is Identifier : Statement"},
+	// 12.9 return
+	{"return;", "reject", "-", "12.9: return outside a FunctionBody"},
+	{"return 1", "reject", "-", "12.9"},
+	{"function f(){ return; }", "accept", "-", "12.9"},
+	{"(function(){ return 1 })", "accept", "-", "12.9"},
+	{"if (x) { return }", "reject", "-", "12.9"},
+	// 12.14 try
+	{"try {}", "reject", "-", "12.14"},
+	{"try {} catch (e) {}", "accept", "-", "12.14"},
+	{"try {} finally {}", "accept", "-", "12.14"},
+	{"try {} catch {}", "reject", "-", "12.14"},
+	{"try {} catch (1) {}", "reject", "-", "12.14"},
+	{"try x; catch (e) {}", "reject", "-", "12.14: Block required"},
+	// 11.13.1, 11.3, 11.4 targets
+	{"1 = 2", "reject", "-", "11.13.1 / 16"},
+	{"a + b = c", "reject", "-", "11.13"},
+	{"a = b = c", "accept", "-", "11.13"},
+	{"(a) = 1", "accept", "-", "11.1.6"},
+	{"a++ = 1", "reject", "-", "11.13"},
+	{"++a++", "reject", "-", "11.4"},
+	{"1++", "reject", "-", "11.3 / 16"},
+	{"--1", "reject", "-", "11.4 / 16"},
+	{"for (1 in o);", "reject", "-", "12.6.4"},
+	{"for (a, b in o);", "reject", "-", "12.6.4"},
+	{"for (var a, b in o);", "reject", "-", "12.6.4"},
+	{"for (var a = 1 in o);", "accept", "-", "12.6.4 VariableDeclarationNoIn"},
+	// 7.6.1 reserved words
+	{"var if = 1", "reject", "-", "7.6.1.1"},
+	{"var class = 1", "reject", "-", "7.6.1.2"},
+	{"enum = 1", "reject", "-", "7.6.1.2"},
+	{"var let = 1", "accept", "-", "7.6.1.2: reserved in strict mode only"},
+	{"a.if = 1", "accept", "-", "11.2.1: IdentifierName"},
+	{"({ if: 1, class: 2 })", "accept", "-", "11.1.5"},
+	{"function if(){}", "reject", "-", "7.6.1"},
+	{"function f(if){}", "reject", "-", "7.6.1"},
+	{"var x = true; var true = 1", "reject", "-", "7.6.1"},
+	{"null = 1", "reject", "-", "7.6.1"},
+	// 7.8.5 / 15.10 regular expressions
+	{"/(/", "reject", "-", "15.10.1"},
+	{"/a/", "accept", "-", "7.8.5"},
+	{"/[/]/", "accept", "-", "7.8.5 RegularExpressionClass"},
+	{"/a", "reject", "-", "7.8.5"},
+	{"/a\n/", "reject", "-", "7.8.5"},
+	{"/a**/", "reject", "-", "15.10.1"},
+	// 11.1.4-5, 11.2 list syntax
+	{"f(a,)", "reject", "trailing_comma_arguments", "11.2: ArgumentList has no trailing comma"},
+	{"f(,)", "reject", "-", "11.2"},
+	{"f(a b)", "reject", "-", "11.2"},
+	{"[a,]", "accept", "-", "11.1.4"},
+	{"[,]", "accept", "-", "11.1.4 Elision"},
+	{"({a:1,})", "accept", "-", "11.1.5"},
+	{"({a:1 b:2})", "reject", "object_literal_missing_comma", "11.1.5: PropertyNameAndValueList needs commas"},
+	{"({,})", "reject", "-", "11.1.5"},
+	{"({get a(){}})", "accept", "-", "11.1.5"},
+	{"({get a(x){}})", "reject", "accessor_parameter_count", "11.1.5: get PropertyName ( )"},
+	{"({set a(){}})", "reject", "accessor_parameter_count", "11.1.5: set PropertyName ( PropertySetParameterList )"},
+	{"({set a(x,y){}})", "reject", "accessor_parameter_count", "11.1.5"},
+	{"({set a(x){}})", "accept", "-", "11.1.5"},
+	// 12.x statement syntax and ASI (7.9)
+	{"if (a) else b", "reject", "-", "12.5"},
+	{"if a b", "reject", "-", "12.5"},
+	{"while () ;", "reject", "-", "12.6.2"},
+	{"do ; while (0) x", "reject", "do_while_no_semicolon", "7.9.1 (ES5): no ASI after do-while without a line terminator"},
+	{"do ; while (0)\nx", "accept", "-", "7.9.1"},
+	{"do ; while (0); x", "accept", "-", "12.6.1"},
+	{"for (;;", "reject", "-", "12.6.3"},
+	{"for (;) ;", "reject", "-", "12.6.3"},
+	{"switch (x) {", "reject", "switch_missing_brace", "12.11"},
+	{"switch (x) { case 1: a; ", "reject", "switch_missing_brace", "12.11"},
+	{"switch (x) { default: default: }", "reject", "-", "12.11: at most one default"},
+	{"switch (x) { a; }", "reject", "-", "12.11"},
+	{"with (a)", "reject", "-", "12.10"},
+	{"throw\na", "reject", "-", "7.9.1 / 12.13: no LineTerminator after throw"},
+	{"throw a", "accept", "-", "12.13"},
+	{"a b", "reject", "-", "7.9.1"},
+	{"a\nb", "accept", "-", "7.9.1"},
+	{"a\n++\nb", "accept", "-", "7.9.1: parsed as a; ++b"},
+	{"a ++\nb", "accept", "-", "7.9.1"},
+	{"x = 1 /*\n*/ y = 2", "accept", "asi_multiline_comment", "7.4 / 7.9: a MultiLineComment containing a line terminator acts as one"},
+	{"x\r \ny", "accept", "cr_peek", "7.3: CR is a LineTerminator"},
+	{"var a = 1 var b", "reject", "-", "7.9.1"},
+	{"var a,", "reject", "-", "12.2"},
+	{"var", "reject", "-", "12.2"},
+	{"function (){}", "reject", "-", "13: FunctionDeclaration needs a name"},
+	{"function f(a,){}", "reject", "trailing_comma_parameters", "13: FormalParameterList has no trailing comma"},
+	{"function f(a b){}", "reject", "-", "13"},
+	{"function f(){", "reject", "-", "13"},
+	{"{", "reject", "-", "12.1"},
+	{"}", "reject", "-", "14"},
+	{"(", "reject", "-", "11.1.6"},
+	{"a ? b", "reject", "-", "11.12"},
+	{"a ? b :", "reject", "-", "11.12"},
+	{"new", "reject", "-", "11.2"},
+	{"a.", "reject", "-", "11.2.1"},
+	{"a.1", "reject", "-", "11.2.1"},
+	{"a[", "reject", "-", "11.2.1"},
+	{"'abc", "reject", "-", "7.8.4"},
+	{"'a\nb'", "reject", "-", "7.8.4"},
+	{"'\\x4'", "reject", "-", "7.8.4 HexEscapeSequence"},
+	{"'\\u12'", "reject", "-", "7.8.4 UnicodeEscapeSequence"},
+	{"3in x", "reject", "-", "7.8.3: no IdentifierStart directly after a NumericLiteral"},
+	{"0x", "reject", "-", "7.8.3"},
+	{"1e", "reject", "-", "7.8.3"},
+	{"08", "reject", "-", "7.8.3 / B.1.1"},
+	{"a \\u0020 b", "reject", "-", "7.6"},
+	{"@", "reject", "-", "7"},
+	{"a # b", "reject", "-", "7"},
+	{"/* open", "reject", "-", "7.4"},
+	{"a & ^ b", "reject", "-", "11.10"},
+	{"a &^ b", "reject", "-", "7.7: `&^` is not an ES5 punctuator (a & ^b is a syntax error)"},
+	{"a &^= b", "reject", "-", "7.7"},
+}
+
+func genEarly(c *h.Ctx) {
+	for _, t := range earlyTable {
+		c.Add("early "+t.expect+" "+t.region+" x"+astx.Hex(t.src), "early", "early:"+t.expect)
+	}
+}
+
+func implEarly(f []string) string {
+	o := safeParse(astx.UnHex(f[3][1:]))
+	if o.panicV != "" {
+		return "panic:parse"
+	}
+	if o.err != nil {
+		return "reject"
+	}
+	return "accept"
+}
